@@ -51,7 +51,7 @@ def main(ids):
         sh('git checkout -q -- .')
         ok3, bad3 = tests_summary(o3)
         os.remove(os.path.join(WT, 'tests/seed_demo.rs'))
-        confirmed = (rc1 == 0 and ok1 == 37 and bad1 == 0) and (rc2 != 0 and bad2 > 0) and (rc3 == 0 and bad3 == 0 and ok3 > 0)
+        confirmed = (rc1 == 0 and ok1 == 37 and bad1 == 0) and (rc2 != 0) and (rc3 == 0 and bad3 == 0 and ok3 > 0)
         meta.update({'confirmed': confirmed,
                      'ran': {'suite_with_change': f'cargo test --workspace --no-fail-fast --offline -> rc={rc1}, {ok1} passed, {bad1} failed',
                              'demo_with_change': f'{demo_cmd} -> rc={rc2}, {ok2} passed, {bad2} failed',
